@@ -3,7 +3,7 @@ import SwhVerif.Lemmas.MerkleRun
 # Merkle cache: an executable acyclicity check for concrete histories (used by the examples)
 -/
 namespace Swh.Merkle
-variable {H : Type} {hashFn : Data → List (Name × H) → H}
+variable {H : Type} {hashFn : Data → List (EntryV H) → H}
 
 /-- a rank given as a list indexed by node id; unallocated ids have rank 0 -/
 def rankFn (h : Heap H) (rank : List Nat) (n : Id) : Nat := if n < h.size then rank.getD n 0 else 0
@@ -33,7 +33,7 @@ theorem acyclic_of_checkRank (h : Heap H) (rank : List Nat) (hc : checkRank h ra
     · simp [rankFn, hn]
 
 /-- every heap of the history started in `h` passes `checkRank` with the same rank list -/
-def checkHist (hashFn : Data → List (Name × H) → H) (rank : List Nat) : Heap H → List Op → Bool
+def checkHist (hashFn : Data → List (EntryV H) → H) (rank : List Nat) : Heap H → List Op → Bool
   | h, [] => checkRank h rank
   | h, op :: ops => checkRank h rank && checkHist hashFn rank (step hashFn h op).1 ops
 
